@@ -3,8 +3,8 @@ package main
 func init() {
 	properties["C01"] = &Property{
 		Title: "blocks expand back to the input (round trip)",
-		Rules: []string{"R-TILE", "R-LITPAIR", "R-BLOCKCLIP", "R-INVALIDATE", "R-OSAP-RANGE", "R-OSAP-INDEX", "R-SHRINK-WRAP", "R-SHRINK-PB"},
-		Decided: "tiling of the block by literal runs and matches (cursor discipline, epilogue), LitLen/literal pairing, re-basing/dropping of all search state on Shrink, recompute guard of OSAP's unverified edges.",
+		Rules: []string{"R-TILE", "R-LITPAIR", "R-BLOCKCLIP", "R-OFFSET-AGREE", "R-PREFIX-STOP", "R-INVALIDATE", "R-OSAP-RANGE", "R-OSAP-INDEX", "R-SHRINK-WRAP", "R-SHRINK-PB"},
+		Decided: "tiling of the block by literal runs and matches (cursor discipline, epilogue), LitLen/literal pairing, agreement of the emitted Offset with the positions actually compared (every word/prefix comparison feeding MatchLen is between x and x−Offset and starts where the verified part ends), re-basing/dropping of all search state on Shrink, recompute guard of OSAP's unverified edges.",
 		NotDecided: "byte-for-byte equality of the expansion; correctness of the 8-byte compare arithmetic, lcp/lcs, suffix.Sort/LCP/Segments.",
 	}
 	properties["C02"] = &Property{
@@ -143,7 +143,7 @@ func init() {
 func init() {
 	properties["C19"] = &Property{
 		Title: "matches are maximal; byte runs are compressed (structural clauses)",
-		Rules: []string{"R-OFFSET-AGREE", "R-EXT-COVER", "R-BACKEXT", "R-REINDEX", "R-CAND-MEASURED", "R-STRIDE", "R-GSAP-BOTH"},
+		Rules: []string{"R-OFFSET-AGREE", "R-EXT-COVER", "R-PREFIX-STOP", "R-BACKEXT", "R-REINDEX", "R-CAND-MEASURED", "R-STRIDE", "R-GSAP-BOTH"},
 		Decided: "for every non-optimizing parser: each comparison feeding MatchLen is between x and x−Offset and starts where the verified part ends; every path to an emission ends with a mismatch witness or at the block end (extension loops keep k + len(q) = len(p) − i, tail compared only with ≤ 7 bytes left); the backward extension covers min(pending literals, source position) bytes exactly when literals are pending; the scanned position and every position covered by a match are indexed; a table candidate with equal hash input inside the window is always measured.",
 		NotDecided: "the run clause as a count of literals per block (depends on hash values and table contents at run time); maximality as a fact about bytes rests on the trusted semantics of the word loaders and of lcp/lcs.",
 		Assumptions: []string{"_getLE64/getLE64 load the little-endian word at the start of their argument; lcp/lcs return exact common prefix/suffix lengths"},
